@@ -47,6 +47,51 @@ fn eval_event(ids: &[usize], out: &mut Out) -> i64 {
     idx
 }
 
+/// the same evaluation reached through a showdown: the first five ids are the board, the last two one player's hole cards;
+/// a second player holds the same two ranks in other suits (when such cards are free).  One `eval` event per player, with
+/// the seven cards as the harness dealt them and the index / category read from `ShowdownPlayer::hand()`.
+fn showdown_events(ids: &[usize], rng: &mut Rng, out: &mut Out) {
+    use espada::evaluator::Showdown;
+    let board = [card(ids[0]), card(ids[1]), card(ids[2]), card(ids[3]), card(ids[4])];
+    let mut holes: Vec<(usize, usize)> = vec![(ids[5], ids[6])];
+    let mut used: Vec<usize> = ids.to_vec();
+    let mut twin = vec![];
+    for &c in &[ids[5], ids[6]] {
+        let start = rng.usize(4);
+        if let Some(t) = (0..4).map(|k| 4 * (c / 4) + (start + k) % 4).find(|t| !used.contains(t)) {
+            used.push(t);
+            twin.push(t);
+        }
+    }
+    if twin.len() == 2 {
+        if rng.chance(1, 2) {
+            holes.push((twin[0], twin[1]));
+        } else {
+            holes.insert(0, (twin[0], twin[1]));
+        }
+    }
+    let hs = holes.clone();
+    let r = guarded(move || {
+        Showdown::new(hs.iter().map(|(a, b)| pair(*a, *b)).collect(), board, 1.0)
+            .map(|sd| sd.players().iter().map(|p| (p.hand().power_index() as i64, format!("{:?}", p.hand().hand_type()))).collect::<Vec<_>>())
+    });
+    for (k, (a, b)) in holes.iter().enumerate() {
+        let mut seven: Vec<usize> = ids[..5].to_vec();
+        seven.push(*a);
+        seven.push(*b);
+        let (idx, ty) = match &r {
+            Some(Some(v)) if k < v.len() => v[k].clone(),
+            Some(_) => (-3, "none".to_string()),
+            None => (-2, "panic".to_string()),
+        };
+        let (fl, key) = key_of(&seven);
+        out.line(&format!(
+            "{{\"op\":\"eval\",\"cards\":{},\"idx\":{},\"ty\":\"{}\",\"fl\":{},\"key\":{},\"route\":\"showdown\",\"seat\":{},\"seats\":{}}}",
+            list(&seven), idx, ty, fl, list(&key), k + 1, holes.len()
+        ));
+    }
+}
+
 fn sgn(o: Ordering) -> i32 {
     match o {
         Ordering::Less => -1,
@@ -141,6 +186,9 @@ pub fn record_keys(args: &Args, mut out: Out) -> usize {
                 rng.shuffle(&mut ids);
                 eval_event(&ids, &mut out);
                 if rng.chance(1, 8) {
+                    showdown_events(&ids, &mut rng, &mut out);
+                }
+                if rng.chance(1, 8) {
                     pool.push(ids);
                 }
             }
@@ -166,6 +214,9 @@ pub fn record_keys(args: &Args, mut out: Out) -> usize {
                     _ => { ids.extend(rest); rng.shuffle(&mut ids); }
                 }
                 eval_event(&ids, &mut out);
+                if v % 4 < 2 || rng.chance(1, 4) {
+                    showdown_events(&ids, &mut rng, &mut out);
+                }
                 if rng.chance(1, 4) {
                     pool.push(ids);
                 }
@@ -188,6 +239,9 @@ pub fn record_keys(args: &Args, mut out: Out) -> usize {
     for _ in 0..nrandom {
         let ids = rng.distinct(7, 52);
         eval_event(&ids, &mut out);
+        if rng.chance(1, 8) {
+            showdown_events(&ids, &mut rng, &mut out);
+        }
         if rng.chance(1, 4) {
             pool.push(ids);
         }
